@@ -83,6 +83,7 @@ def execute(acts, clients, locks, guarded=False):
         for a in acts:
             exc = False
             answers = []
+            ownacq = []
             if guarded:
                 # the specification's guards, decided from what the real objects have answered so far
                 k = a[0]
@@ -114,6 +115,24 @@ def execute(acts, clients, locks, guarded=False):
                 elif k == 'prolong':
                     c = a[1]
                     fake[c].impl.prolongate(c, VT.now)
+                elif k == 'snap':
+                    # the replica is rebuilt from its own snapshot (what a restart or a snapshot installation does)
+                    c = a[1]
+                    old = fake[c].impl
+                    data = old._serialize()
+                    new = B._ReplLockManagerImpl(U)
+                    new._deserialize(data)
+                    new._syncObj = fake[c]
+                    fake[c].impl = new
+                    for (oid, mname), fid in list(fake[c]._methodToID.items()):
+                        if oid == id(old):
+                            fake[c]._methodToID[(id(new), mname)] = fid
+                    for nm in dir(mgr[c]):
+                        if getattr(mgr[c], nm, None) is old:
+                            setattr(mgr[c], nm, new)
+                    for nm, val in list(vars(mgr[c]).items()):
+                        if val is old:
+                            setattr(mgr[c], nm, new)
                 elif k == 'commit':
                     c = a[1]
                     if queue[c]:
@@ -124,6 +143,8 @@ def execute(acts, clients, locks, guarded=False):
                         origin, name, args, kw, cb = log[applied[c]]
                         applied[c] += 1
                         res = getattr(fake[c].impl, name)(*args, _doApply=True, **kw)
+                        if origin == c and name.startswith('acquire'):
+                            ownacq.append((c, args[0] if args else kw.get('lockID')))
                         if origin == c and cb is not None:
                             cb(res, 0)
                 for c in clients:
@@ -141,6 +162,7 @@ def execute(acts, clients, locks, guarded=False):
                 rec['qlen'][c] = len(queue[c])
             rec['lag'] = {c: len(log) - applied[c] for c in clients}
             rec['yes'] = {c: {l: any(x == (c, l, True) for x in answers) for l in locks} for c in clients}
+            rec['ownacq'] = {c: {l: (c, l) in ownacq for l in locks} for c in clients}
             rec['waiting'] = {c: {l: bool(waiting[c][l]) for l in locks} for c in clients}
             steps.append(rec)
     finally:
@@ -182,8 +204,10 @@ def random_acts(rng, clients, locks, n):
             acts.append(['tryAcquire', c, l])
         elif r < 0.44:
             acts.append(['release', c, l])
-        elif r < 0.52:
+        elif r < 0.50:
             acts.append(['prolong', c])
+        elif r < 0.53:
+            acts.append(['snap', c])
         elif r < 0.76:
             acts.append(['commit', c])
         else:
